@@ -449,6 +449,14 @@ pub fn normalise_msg(msg: &str) -> String {
         Some(p) => &msg[..p + 6],
         None => msg,
     };
+    // `<prefix>: <text>: <payload>`: the part after the second colon is payload
+    let msg = {
+        let mut it = msg.match_indices(": ");
+        match (it.next(), it.next()) {
+            (Some(_), Some((p2, _))) => &msg[..p2],
+            _ => msg,
+        }
+    };
     // identifiers (contain a digit or '_', or are ALL-CAPS words) are input-specific too
     let msg: String = msg
         .split(' ')
